@@ -1295,22 +1295,20 @@ func c15FailFirst(c *Ctx) {
 				c.Check(rule, k+"|key-exists", okk, m.Pos(), "deleting from an absent key fails (ErrNXKey) before any write")
 			}
 		}
-		want := 1
-		if name == "(*RDB).Del" {
-			want = 2
+		// at most one mutation on any path: the mutating calls are pairwise exclusive (no one reaches another); Add has
+		// a Put, Del a Put and a Delete (the last value of a key removes the key)
+		kinds := map[string]bool{}
+		ok := len(muts) >= 1
+		for i, a := range muts {
+			kinds[a.Common().Method.Name()] = true
+			for j, b := range muts {
+				if i < j && (a.Block() == b.Block() || reachable(a.Block(), nil)[b.Block()] || reachable(b.Block(), nil)[a.Block()]) {
+					ok = false
+				}
+			}
 		}
-		ok := len(muts) == want
-		if ok && want == 2 {
-			a, b := muts[0], muts[1]
-			if reachable(a.Block(), nil)[b.Block()] && a.Block() != b.Block() || reachable(b.Block(), nil)[a.Block()] && a.Block() != b.Block() {
-				ok = false
-			}
-			if a.Block() == b.Block() {
-				ok = false
-			}
-			if a.Common().Method.Name() == b.Common().Method.Name() {
-				ok = false
-			}
+		if !kinds["Put"] || (name == "(*RDB).Del" && !kinds["Delete"]) {
+			ok = false
 		}
 		c.Check(srule, fnName(fn)+"|one-mutation-per-path", ok, fn.Pos(), fmt.Sprintf("%d mutating calls", len(muts)))
 	}
